@@ -64,7 +64,7 @@ sv == <<rq, out>>
 vars == <<qv, gv, sv>>
 
 Q == INSTANCE QueueAbs
-G == INSTANCE GlobalDetach WITH nexted <- gnexted
+G == INSTANCE GlobalDetach WITH nexted <- gnexted, obs <- <<>>   \* no is_attached() observers in the composition
 
 S1 == 1                      \* the one sink of a scenario
 GuardModes == {"guard", "fg", "wait", "disc"}
